@@ -89,6 +89,9 @@ func (config *Config) FullKey(key string) string {
 	if config.Prefix == "" {
 		return key
 	}
+	if strings.HasSuffix(config.Prefix, ".") {
+		return config.Prefix + key
+	}
 	return fmt.Sprintf("%s.%s", config.Prefix, key)
 }
 
